@@ -47,15 +47,13 @@ Qed.
 Section Glue.
 Variable spell : N -> text.
 Variable cfg : config.
-Variable ils : list Prog.iline.
+Variable lbs : labels.            (* the labels of the program, with their addresses *)
 Notation cf := (mconf_of cfg).
-Notation ls := (lab_pairs 0 ils).
-Notation ids := (flat_map il_labels ils).
-Hypothesis Hsp : spell_ok spell ids.
+Hypothesis Hsp : spell_ok spell (map fst lbs).
 
 (* a known name is spelt as a predefined word or as one of the program's labels, and is no keyword *)
-Lemma known_spelled id : known cf ls id ->
-  In (spell id) (predefined ++ map spell ids) /\ is_pseudo_text (spell id) = false.
+Lemma known_spelled id : known cf lbs id ->
+  In (spell id) (predefined ++ map spell (map fst lbs)) /\ is_pseudo_text (spell id) = false.
 Proof.
   destruct Hsp as [[P1 [P2 [P3 P4]]] Hlab Hinj Hnd _]. unfold known, predefined_value.
   destruct (N.eqb_spec id ID_CORESIZE) as [->|N1]; [intros _; rewrite P1; split; [cbn; auto|reflexivity]|].
@@ -63,8 +61,8 @@ Proof.
   destruct (N.eqb_spec id ID_MAXPROCESSES) as [->|N3]; [intros _; rewrite P3; split; [cbn; auto|reflexivity]|].
   destruct (N.eqb_spec id ID_MINDISTANCE) as [->|N4]; [intros _; rewrite P4; split; [cbn; auto 10|reflexivity]|].
   intros [H|H]; [congruence|].
-  destruct (lab_find' id ls) as [a|] eqn:Ea; [|congruence].
-  pose proof (lab_find'_in _ _ _ Ea) as Hin. rewrite lab_pairs_keys in Hin. split.
+  destruct (lab_find' id lbs) as [a|] eqn:Ea; [|congruence].
+  pose proof (lab_find'_in _ _ _ Ea) as Hin. split.
   - apply in_or_app. right. apply in_map. exact Hin.
   - apply label_not_pseudo. apply (Hlab id Hin).
 Qed.
@@ -73,7 +71,7 @@ Qed.
 Definition line_names (l : Prog.iline) : list N :=
   names (o_expr (il_a l)) ++ match il_b l with Some b => names (o_expr b) | None => [] end.
 
-Lemma meaning_line_known lbs l t i x : renders_line spell l t -> instr_meaning cf [] lbs i l = MI x ->
+Lemma meaning_line_known l t i x : renders_line spell l t -> instr_meaning cf [] lbs i l = MI x ->
   Forall (known cf lbs) (line_names l).
 Proof.
   intros [_ [_ [[_ [_ Ha]] Hb]]] H. unfold instr_meaning in H. cbv zeta in H.
@@ -86,13 +84,14 @@ Proof.
   apply (value_at_spec cf lbs i _ bv Hb Evb).
 Qed.
 
-Lemma rd_known lbs ils0 es : renders_doc spell ils0 es -> forall i acc code s,
+Lemma rd_known org ils0 es : renders_doc spell org ils0 es -> forall i acc code s,
   meaning_code cf [] lbs i ils0 acc = MOk code s -> Forall (fun l => Forall (known cf lbs) (line_names l)) ils0.
 Proof.
-  induction 1 as [|l ils1 t k es Hl _ IH|c k ils1 es _ _ IH]; intros i acc code s H.
+  induction 1 as [|org l ils1 t k es Hl _ IH|org c k ils1 es _ _ IH|e kw cmt k ils1 es _ _ _ IH]; intros i acc code s H.
   - constructor.
   - cbn [meaning_code] in H. destruct (instr_meaning cf [] lbs i l) as [x| |] eqn:Ei; try discriminate.
-    constructor; [apply (meaning_line_known lbs l t i x Hl Ei)|apply (IH _ _ _ _ H)].
+    constructor; [apply (meaning_line_known l t i x Hl Ei)|apply (IH _ _ _ _ H)].
+  - apply (IH _ _ _ _ H).
   - apply (IH _ _ _ _ H).
 Qed.
 
@@ -138,37 +137,52 @@ Qed.
 
 Definition labs_ok (t : tline) : Prop := match tl_labs t with [] | LName _ :: _ => True | _ => False end.
 
-Lemma tline_rendered l t : In l ils -> renders_line spell l t -> labs_ok t -> tline_ok t.
+Lemma spelled_labels ids0 : incl ids0 (map fst lbs) -> Forall label_name (map spell ids0).
+Proof.
+  intros Hinc. apply Forall_forall. intros n Hn. apply in_map_iff in Hn. destruct Hn as [id [<- Hid]].
+  apply (sp_lab _ _ Hsp id). apply Hinc. exact Hid.
+Qed.
+
+Lemma tline_rendered l t : incl (il_labels l) (map fst lbs) -> renders_line spell l t -> labs_ok t -> tline_ok t.
 Proof.
   intros Hin [Hl [Hop [Ha Hb]]] Hsh. split; [exact Hsh|]. split; [|split; [apply (optext_tok _ _ _ Hop)|split; [apply (operand_rendered _ _ _ Ha)|]]].
-  - rewrite Hl. apply Forall_forall. intros n Hn. apply in_map_iff in Hn. destruct Hn as [id [<- Hid]].
-    apply (sp_lab _ _ Hsp id). apply in_flat_map. exists l. split; assumption.
+  - rewrite Hl. apply spelled_labels. exact Hin.
   - destruct (il_b l) as [b|], (tl_B t) as [[bm B]|]; try destruct Hb; try exact I. apply (operand_rendered b bm B). split; assumption.
 Qed.
 
+Lemma expr_plain e : Forall (known cf lbs) (names e) -> Forall plainword (etoks spell e).
+Proof.
+  intros He. apply Forall_forall. intros tk Htk Ht. destruct (etoks_text e tk Htk Ht) as [id [H1 H2]].
+  rewrite H2. apply not_pseudo_plain. rewrite Forall_forall in He. apply (known_spelled id (He id H1)).
+Qed.
+Lemma labs_plain ids0 labs : incl ids0 (map fst lbs) -> lnames labs = map spell ids0 -> Forall plainword (map ltok_tok labs).
+Proof.
+  intros Hinc Hl. apply Forall_forall. intros tk Htk Ht. apply in_map_iff in Htk. destruct Htk as [x [<- Hx]].
+  destruct x as [n| |]; try discriminate Ht. cbn [ltok_tok t_val]. apply not_pseudo_plain. apply label_not_pseudo.
+  assert (Hn : In n (lnames labs)) by (unfold lnames; apply in_flat_map; exists (LName n); split; [exact Hx|left; reflexivity]).
+  rewrite Hl in Hn. pose proof (spelled_labels ids0 Hinc) as F. rewrite Forall_forall in F. apply F. exact Hn.
+Qed.
+Lemma cmt_plain c : Forall plainword (cmt_toks c).
+Proof. destruct c as [c0|]; cbn [cmt_toks]; [constructor; [intros X; discriminate X|constructor]|constructor]. Qed.
+
 (* the words of a rendered line are no keywords of the expander *)
-Lemma tline_plain l t : In l ils -> renders_line spell l t -> Forall (known cf ls) (line_names l) -> Forall plainword (tline_toks t).
+Lemma tline_plain l t : incl (il_labels l) (map fst lbs) -> renders_line spell l t -> Forall (known cf lbs) (line_names l) ->
+  Forall plainword (tline_toks t).
 Proof.
   intros Hin [Hl [Hop [[Ea1 [Ea2 _]] Hb]]] Hk.
-  assert (Hexpr : forall e, Forall (known cf ls) (names e) -> Forall plainword (etoks spell e)).
-  { intros e He. apply Forall_forall. intros tk Htk Ht. destruct (etoks_text e tk Htk Ht) as [id [H1 H2]].
-    rewrite H2. apply not_pseudo_plain. rewrite Forall_forall in He. apply (known_spelled id (He id H1)). }
   assert (Hmode : forall m, Forall plainword (mode_toks m)) by (intros [a|]; cbn [mode_toks]; [constructor; [intros X; discriminate X|constructor]|constructor]).
   unfold line_names in Hk. apply Forall_app in Hk. destruct Hk as [Ka Kb].
   unfold tline_toks, tline_head, tline_last. repeat (apply Forall_app; split).
-  - apply Forall_forall. intros tk Htk Ht. apply in_map_iff in Htk. destruct Htk as [x [<- Hx]].
-    destruct x as [n| |]; try discriminate Ht. cbn [ltok_tok t_val]. apply not_pseudo_plain. apply label_not_pseudo.
-    assert (Hn : In n (lnames (tl_labs t))) by (unfold lnames; apply in_flat_map; exists (LName n); split; [exact Hx|left; reflexivity]).
-    rewrite Hl in Hn. apply in_map_iff in Hn. destruct Hn as [id [<- Hid]]. apply (sp_lab _ _ Hsp id). apply in_flat_map. exists l. split; assumption.
+  - apply (labs_plain (il_labels l)); assumption.
   - constructor.
     + intros _. apply not_pseudo_plain. destruct (optext_tok _ _ _ Hop) as [_ [_ Hp]]. exact Hp.
     + apply Forall_app. split; [apply Hmode|].
       destruct (il_b l) as [b|], (tl_B t) as [[bm B]|]; try destruct Hb; try constructor.
-      apply Forall_app. split; [rewrite Ea2; apply Hexpr; exact Ka|]. constructor; [intros X; discriminate X|apply Hmode].
+      apply Forall_app. split; [rewrite Ea2; apply expr_plain; exact Ka|]. constructor; [intros X; discriminate X|apply Hmode].
   - destruct (il_b l) as [b|], (tl_B t) as [[bm B]|]; try destruct Hb.
-    + destruct H0 as [-> _]. apply Hexpr. exact Kb.
-    + rewrite Ea2. apply Hexpr. exact Ka.
-  - destruct (tl_cmt t) as [c0|]; cbn [cmt_toks]; [constructor; [intros X; discriminate X|constructor]|constructor].
+    + destruct H0 as [-> _]. apply expr_plain. exact Kb.
+    + rewrite Ea2. apply expr_plain. exact Ka.
+  - apply cmt_plain.
 Qed.
 
 (* ---------- the names referred to ---------- *)
@@ -182,66 +196,80 @@ Proof.
     apply He; [left; reflexivity|exact Et].
   - intros t0 H0. apply He. right. exact H0.
 Qed.
+Lemma expr_refs (S : text -> Prop) e rf : Forall (known cf lbs) (names e) -> (forall id, known cf lbs id -> S (spell id)) ->
+  (forall r, In r rf -> S r) -> forall r, In r (add_refs rf (etoks spell e)) -> S r.
+Proof.
+  intros He HS Hrf. apply add_refs_sub; [exact Hrf|]. intros tk Htk Ht. destruct (etoks_text e tk Htk Ht) as [id [H1 H2]]. rewrite H2. apply HS.
+  rewrite Forall_forall in He. apply He. exact H1.
+Qed.
 
-Lemma refs_line l t rf (S : text -> Prop) : renders_line spell l t -> Forall (known cf ls) (line_names l) ->
-  (forall id, known cf ls id -> S (spell id)) -> (forall r, In r rf -> S r) -> forall r, In r (refs_after rf t) -> S r.
+Lemma refs_line l t rf (S : text -> Prop) : renders_line spell l t -> Forall (known cf lbs) (line_names l) ->
+  (forall id, known cf lbs id -> S (spell id)) -> (forall r, In r rf -> S r) -> forall r, In r (refs_after rf t) -> S r.
 Proof.
   intros [_ [_ [[_ [Ea2 _]] Hb]]] Hk HS Hrf. unfold line_names in Hk. apply Forall_app in Hk. destruct Hk as [Ka Kb].
-  assert (Hexpr : forall e, Forall (known cf ls) (names e) -> forall tk, In tk (etoks spell e) -> t_typ tk = tokText -> S (t_val tk)).
-  { intros e He tk Htk Ht. destruct (etoks_text e tk Htk Ht) as [id [H1 H2]]. rewrite H2. apply HS.
-    rewrite Forall_forall in He. apply He. exact H1. }
   unfold refs_after, refs_mid, tline_last.
   destruct (il_b l) as [b|], (tl_B t) as [[bm B]|]; try destruct Hb.
-  - destruct H0 as [-> _]. apply add_refs_sub; [|apply Hexpr; exact Kb]. apply add_refs_sub; [exact Hrf|rewrite Ea2; apply Hexpr; exact Ka].
-  - apply add_refs_sub; [exact Hrf|rewrite Ea2; apply Hexpr; exact Ka].
+  - destruct H0 as [-> _]. apply expr_refs; [exact Kb|exact HS|]. rewrite Ea2. apply expr_refs; assumption.
+  - rewrite Ea2. apply expr_refs; assumption.
 Qed.
-End Glue.
 
 (* ---------- whole documents ---------- *)
-Section End2End.
-Variable spell : N -> text.
-Variable cfg : config.
-Variable ils : list Prog.iline.
-Notation cf := (mconf_of cfg).
-Notation ls := (lab_pairs 0 ils).
-Notation ids := (flat_map il_labels ils).
-Hypothesis Hsp : spell_ok spell ids.
-
 Definition shape_ok (es : list (lelem * nat)) : Prop :=
-  Forall (fun xk => match fst xk with LInstr t => labs_ok t | LComment _ => True end) es.
+  Forall (fun xk => match fst xk with LInstr t => labs_ok t | _ => True end) es.
+Definition org_known (org : option nexpr) : Prop := match org with Some e => Forall (known cf lbs) (names e) | None => True end.
 
-Lemma rd_ok ils0 es : renders_doc spell ils0 es -> incl ils0 ils -> shape_ok es -> Forall (fun xk => lelem_ok (fst xk)) es.
+Lemma org_kw_facts kw : dir_kw_ok kw "org" ->
+  kw_tok (mkT tokText kw) /\ tok_is_pseudo (mkT tokText kw) = true /\ lower_is kw "end" = false /\
+  lower_is kw "for" = false /\ lower_is kw "equ" = false.
 Proof.
-  induction 1 as [|l ils1 t k es Hl _ IH|c k ils1 es _ _ IH]; intros Hinc Hsh; [constructor| |].
-  - inversion Hsh as [|a b Ha Hb]; subst. cbn [fst] in Ha. constructor.
-    + cbn [fst lelem_ok]. apply (tline_rendered spell ils Hsp l t); [apply Hinc; left; reflexivity|exact Hl|exact Ha].
-    + apply IH; [intros x Hx; apply Hinc; right; exact Hx|exact Hb].
+  intros Hk. destruct (dir_kw_facts kw "org" (or_introl eq_refl) Hk) as [K0 [K1 [K2 [_ K4]]]]. cbn in K4.
+  split; [split; [reflexivity|exact K0]|]. split; [exact K1|]. split; [exact K4|]. split; [|exact K2].
+  unfold dir_kw_ok in Hk. unfold lower_is. rewrite Hk. reflexivity.
+Qed.
+
+Lemma rd_ok org ils0 es : renders_doc spell org ils0 es -> incl (flat_map il_labels ils0) (map fst lbs) -> shape_ok es ->
+  Forall (fun xk => lelem_ok (fst xk)) es.
+Proof.
+  induction 1 as [|org l ils1 t k es Hl _ IH|org c k ils1 es _ _ IH|e kw cmt k ils1 es Hkw _ _ IH]; intros Hinc Hsh; [constructor| | |].
+  - inversion Hsh as [|a b Ha Hb]; subst. cbn [fst] in Ha. cbn [flat_map] in Hinc. constructor.
+    + cbn [fst lelem_ok]. apply (tline_rendered l t); [intros x Hx; apply Hinc; apply in_or_app; left; exact Hx|exact Hl|exact Ha].
+    + apply IH; [intros x Hx; apply Hinc; apply in_or_app; right; exact Hx|exact Hb].
   - inversion Hsh as [|a b Ha Hb]; subst. constructor; [exact I|apply IH; assumption].
+  - inversion Hsh as [|a b Ha Hb]; subst. constructor; [|apply IH; assumption].
+    cbn [fst lelem_ok]. destruct (org_kw_facts kw Hkw) as [K1 [K2 [K3 _]]]. unfold dir_ok. repeat split; try assumption; try apply K1.
+    + apply etoks_terms.
+    + apply etoks_nonempty.
 Qed.
 
 Lemma repeat_nl_plain k : Forall plainword (repeat nl_tok k).
 Proof. induction k; cbn [repeat]; constructor; [intros X; discriminate X|assumption]. Qed.
 
-Lemma rd_plain ils0 es : renders_doc spell ils0 es -> incl ils0 ils ->
-  Forall (fun l => Forall (known cf ls) (line_names l)) ils0 -> Forall plainword (body es).
+Lemma rd_plain org ils0 es : renders_doc spell org ils0 es -> incl (flat_map il_labels ils0) (map fst lbs) ->
+  Forall (fun l => Forall (known cf lbs) (line_names l)) ils0 -> org_known org -> Forall plainword (body es).
 Proof.
-  induction 1 as [|l ils1 t k es Hl _ IH|c k ils1 es _ _ IH]; intros Hinc Hk; [constructor| |].
-  - inversion Hk as [|a b Ha Hb]; subst. cbn [body lelem_toks]. apply Forall_app. split.
-    + apply (tline_plain spell cfg ils Hsp l t); [apply Hinc; left; reflexivity|exact Hl|exact Ha].
-    + apply Forall_app. split; [apply repeat_nl_plain|]. apply IH; [intros x Hx; apply Hinc; right; exact Hx|exact Hb].
+  induction 1 as [|org l ils1 t k es Hl _ IH|org c k ils1 es _ _ IH|e kw cmt k ils1 es Hkw _ _ IH]; intros Hinc Hk Ho; [constructor| | |].
+  - inversion Hk as [|a b Ha Hb]; subst. cbn [body lelem_toks]. cbn [flat_map] in Hinc. apply Forall_app. split.
+    + apply (tline_plain l t); [intros x Hx; apply Hinc; apply in_or_app; left; exact Hx|exact Hl|exact Ha].
+    + apply Forall_app. split; [apply repeat_nl_plain|]. apply IH; [intros x Hx; apply Hinc; apply in_or_app; right; exact Hx|exact Hb|exact Ho].
   - cbn [body lelem_toks]. cbn [app]. constructor; [intros X; discriminate X|].
     apply Forall_app. split; [apply repeat_nl_plain|apply IH; assumption].
+  - cbn [body lelem_toks]. destruct (org_kw_facts kw Hkw) as [_ [_ [_ [K4 K5]]]].
+    cbn [app]. constructor; [intros _; split; assumption|]. rewrite <- app_assoc. apply Forall_app. split; [apply expr_plain; exact Ho|].
+    apply Forall_app. split; [apply cmt_plain|]. apply Forall_app. split; [apply repeat_nl_plain|apply IH; [exact Hinc|exact Hk|exact I]].
 Qed.
 
-Lemma rd_refs (S : text -> Prop) ils0 es : renders_doc spell ils0 es ->
-  Forall (fun l => Forall (known cf ls) (line_names l)) ils0 -> (forall id, known cf ls id -> S (spell id)) ->
+Lemma rd_refs (S : text -> Prop) org ils0 es : renders_doc spell org ils0 es ->
+  Forall (fun l => Forall (known cf lbs) (line_names l)) ils0 -> org_known org -> (forall id, known cf lbs id -> S (spell id)) ->
   forall rf, (forall r, In r rf -> S r) -> forall r, In r (drefs rf es) -> S r.
 Proof.
-  induction 1 as [|l ils1 t k es Hl _ IH|c k ils1 es _ _ IH]; intros Hk HS rf Hrf; cbn [drefs]; [exact Hrf| |].
-  - inversion Hk as [|a b Ha Hb]; subst. apply (IH Hb HS). apply (refs_line spell cfg ils l t rf S Hl Ha HS Hrf).
-  - apply (IH Hk HS rf Hrf).
+  induction 1 as [|org l ils1 t k es Hl _ IH|org c k ils1 es _ _ IH|e kw cmt k ils1 es _ _ _ IH]; intros Hk Ho HS rf Hrf; cbn [drefs]; [exact Hrf| | |].
+  - inversion Hk as [|a b Ha Hb]; subst. apply (IH Hb Ho HS). apply (refs_line l t rf S Hl Ha HS Hrf).
+  - apply (IH Hk Ho HS rf Hrf).
+  - apply (IH Hk I HS). apply expr_refs; assumption.
 Qed.
+End Glue.
 
+(* ---------- from the text to the instructions ---------- *)
 Lemma nodup_app (A : Type) (a b : list A) : NoDup a -> NoDup b -> (forall x, In x a -> ~ In x b) -> NoDup (a ++ b).
 Proof.
   induction a as [|x a IH]; intros Ha Hb Hd; [exact Hb|]. inversion Ha as [|y z Hx Hy]; subst. cbn [app]. constructor.
@@ -249,57 +277,129 @@ Proof.
   - apply IH; [exact Hy|exact Hb|]. intros w Hw. apply Hd. right. exact Hw.
 Qed.
 
-Lemma names_nodup es : renders_doc spell ils es -> NoDup (predefined ++ dnames es).
-Proof.
-  intros Hrd. rewrite (rd_names spell ils es Hrd).
-  destruct Hsp as [_ Hlab Hinj Hnd _]. apply nodup_app.
-  - unfold predefined. repeat constructor; cbn [In]; intros H; repeat (destruct H as [H|H]; [discriminate H|]); exact H.
-  - apply NoDup_map_spell; assumption.
-  - intros x Hx Hin. apply in_map_iff in Hin. destruct Hin as [id [<- Hid]]. apply (proj2 (Hlab id Hid)). exact Hx.
-Qed.
+Section End2End.
+Variable spell : N -> text.
+Variable cfg : config.
+Notation cf := (mconf_of cfg).
 
-(* the statement: a text whose tokens are those of a document that renders the program is assembled to
-   what the program denotes *)
-Theorem labels_tokens es lead nm au code start inp :
-  validate cfg = true -> renders_doc spell ils es -> shape_ok es -> ends_ok es ->
-  meaning cf (mkProg (map IInstr ils) None None nm au []) = MOk code start ->
-  lex_ascii inp = Some (ldoc_toks lead es) ->
+(* a document, with or without an END line *)
+Definition doc_tokens (lead : nat) (es : list (lelem * nat)) (xo : option endline) : list token :=
+  match xo with Some x => ldoc_end_toks lead es x | None => ldoc_toks lead es end.
+Definition line_ends_ok (es : list (lelem * nat)) (xo : option endline) : Prop :=
+  match xo with Some _ => Forall (fun xk => (1 <= snd xk)%nat) es | None => ends_ok es end.
+Definition renders_tail (pend : option nexpr) (elabs : list N) (nlines : nat) (xo : option endline) : Prop :=
+  match xo with
+  | Some x => renders_end spell pend elabs x /\ (match en_labs x with [] | LName _ :: _ => True | _ => False end) /\
+              (elabs = [] \/ Z.of_nat nlines < Z.of_N (c_size cfg))
+  | None => pend = None /\ elabs = []
+  end.
+
+Theorem program_tokens org pend elabs ils es xo lead nm au code start inp :
+  validate cfg = true ->
+  spell_ok spell (flat_map il_labels ils ++ elabs) ->
+  renders_doc spell org ils es -> shape_ok es -> line_ends_ok es xo -> renders_tail pend elabs (length ils) xo ->
+  match org with Some e => nok e | None => True end ->
+  meaning cf (mkProg (map IInstr ils) org pend nm au elabs) = MOk code start ->
+  lex_ascii inp = Some (doc_tokens lead es xo) ->
   compile_warrior cfg inp = COk code start (dmeta (mkPM [] [] []) es).
 Proof.
-  intros Hv Hrd Hsh Hends Hmean Hlex.
-  (* every name in an operand is known, since the program has a meaning *)
-  assert (Hknown : Forall (fun l => Forall (known cf ls) (line_names l)) ils).
-  { unfold meaning in Hmean. cbn [pr_items pr_end_labels pr_org pr_end map] in Hmean.
-    rewrite collect_instrs in Hmean. cbn [app] in Hmean. rewrite app_nil_r in Hmean. rewrite assertions_instrs in Hmean.
-    destruct (meaning_code cf [] ls 0 ils []) as [code' s'| |] eqn:Emc; try discriminate.
-    apply (rd_known spell cfg ls ils es Hrd 0 [] code' s' Emc). }
-  pose proof (rd_ok ils es Hrd (incl_refl _) Hsh) as Hok.
-  assert (Hplain : Forall plainword (ldoc_toks lead es)).
-  { unfold ldoc_toks. apply Forall_app. split; [apply repeat_nl_plain|]. apply Forall_app. split.
-    - apply (rd_plain ils es Hrd (incl_refl _) Hknown).
-    - constructor; [intros X; discriminate X|constructor]. }
-  destruct (front_plain cfg _ (ldoc_closed lead es Hok) Hplain) as [F1 F2].
-  assert (Hrefs : forall r, In r (drefs [] es) -> In r (predefined ++ dnames es)).
-  { rewrite (rd_names spell ils es Hrd).
-    apply (rd_refs (fun r => In r (predefined ++ map spell ids)) ils es Hrd Hknown).
-    - intros id Hk. apply (known_spelled spell cfg ils Hsp id Hk).
-    - intros r []. }
-  destruct (parse_ldoc lead es Hok Hends (names_nodup es Hrd) Hrefs) as [lines [Hparse Hess]].
-  unfold compile_warrior. rewrite Hlex, F1. cbn [negb]. rewrite F2, Hparse.
-  apply (compile_labels spell cfg ils es lines _ nm au code start Hv Hrd Hsp Hess Hmean).
+  intros Hv Hsp0 Hrd Hsh Hends Htail Horg Hmean Hlex.
+  set (n := Z.of_nat (length ils)).
+  set (lbs := lab_pairs 0 ils ++ end_pairs n elabs).
+  assert (Hkeys : map fst lbs = flat_map il_labels ils ++ elabs).
+  { unfold lbs. rewrite map_app, lab_pairs_keys. f_equal. unfold end_pairs. rewrite map_map. cbn [fst]. apply map_id. }
+  assert (Hsp : spell_ok spell (map fst lbs)) by (rewrite Hkeys; exact Hsp0).
+  assert (Hinc : incl (flat_map il_labels ils) (map fst lbs)) by (rewrite Hkeys; intros x Hx; apply in_or_app; left; exact Hx).
+  assert (Hpnok : match pend with Some e => nok e | None => True end).
+  { destruct pend as [e|]; [|exact I]. destruct xo as [x|]; [|destruct Htail as [Hp _]; discriminate Hp].
+    destruct Htail as [[_ [_ [_ Hn]]] _]. exact Hn. }
+  (* what the meaning says about the names *)
+  assert (Hfacts : Forall (fun l => Forall (known cf lbs) (line_names l)) ils /\ org_known cfg lbs org /\ org_known cfg lbs pend).
+  { pose proof Hmean as Hm2. unfold meaning in Hm2. cbn [pr_items pr_end_labels pr_org pr_end] in Hm2.
+    rewrite collect_instrs in Hm2. cbn [app] in Hm2. rewrite assertions_instrs in Hm2. rewrite Z.add_0_l in Hm2.
+    fold n in Hm2. change (map (fun id => (id, n)) elabs) with (end_pairs n elabs) in Hm2. fold lbs in Hm2.
+    destruct (meaning_code cf [] lbs 0 ils []) as [code' s'| |] eqn:Emc; try discriminate.
+    split; [apply (rd_known spell cfg lbs org ils es Hrd 0 [] code' s' Emc)|].
+    destruct (mf_len cf <? Z.of_nat (length code')); [discriminate|].
+    assert (G : forall e, nok e ->
+              match value_at cf [] lbs 0 e with
+              | MV v => if (v <? 0) || (negb (v =? 0) && (Z.of_nat (length code') <=? v)) then MReject else MOk code' v
+              | MErr => MReject
+              | MAny => MUnconstrained
+              end = MOk code start -> Forall (known cf lbs) (names e)).
+    { intros e He H. destruct (value_at cf [] lbs 0 e) as [v| |] eqn:Ev; try discriminate. apply (value_at_spec cf lbs 0 e v He Ev). }
+    destruct org as [eo|], pend as [ep|]; try discriminate; cbn [org_known]; split; try exact I.
+    - apply (G eo Horg Hm2).
+    - apply (G ep Hpnok Hm2). }
+  destruct Hfacts as [Hknown [Hko Hkp]].
+  pose proof (rd_ok spell lbs Hsp org ils es Hrd Hinc Hsh) as Hok.
+  pose proof (rd_plain spell cfg lbs Hsp org ils es Hrd Hinc Hknown Hko) as Hpl.
+  assert (HS : forall id, known cf lbs id -> In (spell id) (predefined ++ map spell (map fst lbs))).
+  { intros id Hk. apply (known_spelled spell cfg lbs Hsp id Hk). }
+  assert (Hnd : NoDup (predefined ++ map spell (map fst lbs))).
+  { destruct Hsp as [_ Hlab Hinj Hnd _]. apply nodup_app.
+    - unfold predefined. repeat constructor; cbn [In]; intros H; repeat (destruct H as [H|H]; [discriminate H|]); exact H.
+    - apply NoDup_map_spell; assumption.
+    - intros x Hx Hin. apply in_map_iff in Hin. destruct Hin as [id [<- Hid]]. apply (proj2 (Hlab id Hid)). exact Hx. }
+  assert (Hrefs0 : forall r, In r (drefs [] es) -> In r (predefined ++ map spell (map fst lbs))).
+  { apply (rd_refs spell cfg lbs (fun r => In r (predefined ++ map spell (map fst lbs))) org ils es Hrd Hknown Hko HS). intros r []. }
+  rewrite Hkeys, map_app in Hnd, Hrefs0, HS. rewrite <- (rd_names spell org ils es Hrd) in Hnd, Hrefs0, HS.
+  unfold compile_warrior. rewrite Hlex.
+  destruct xo as [x|]; cbn [doc_tokens line_ends_ok renders_tail] in *.
+  - (* with an END line *)
+    destruct Htail as [Hre [Hxsh Hbound]]. pose proof Hre as [Hxl [Hxkw Hxe]].
+    assert (Hex : en_e x = match pend with Some e => etoks spell e | None => [] end) by (destruct pend; [apply Hxe|exact Hxe]).
+    assert (Hxok : end_ok x).
+    { split; [exact Hxsh|]. split; [rewrite Hxl; apply (spelled_labels spell lbs Hsp); rewrite Hkeys; intros y Hy; apply in_or_app; right; exact Hy|].
+      split; [|split; [exact Hxkw|]].
+      - split; [reflexivity|]. unfold tok_is_op, tok_is_pseudo, is_pseudo_text. cbn [t_typ t_val]. unfold lower_is in Hxkw. rewrite Hxkw. rewrite !orb_true_r. reflexivity.
+      - rewrite Hex. destruct pend; [apply etoks_terms|constructor]. }
+    assert (Hplx : Forall plainword (end_toks x)).
+    { unfold end_toks. apply Forall_app. split.
+      - apply (labs_plain spell lbs Hsp elabs); [rewrite Hkeys; intros y Hy; apply in_or_app; right; exact Hy|exact Hxl].
+      - constructor.
+        + intros _. unfold lower_is in *. apply text_eqb_eq in Hxkw. cbn [t_val]. rewrite Hxkw. split; reflexivity.
+        + apply Forall_app. split; [rewrite Hex; destruct pend as [e|]; [apply (expr_plain spell cfg lbs Hsp); exact Hkp|constructor]|].
+          apply Forall_app. split; [apply cmt_plain|apply repeat_nl_plain]. }
+    assert (Hplain : Forall plainword (ldoc_end_toks lead es x)).
+    { unfold ldoc_end_toks. apply Forall_app. split; [apply repeat_nl_plain|]. apply Forall_app. split; [exact Hpl|].
+      apply Forall_app. split; [exact Hplx|]. constructor; [intros X; discriminate X|constructor]. }
+    destruct (front_plain cfg _ (ldoc_end_closed lead es x Hok Hxok) Hplain) as [F1 F2].
+    rewrite F1. cbn [negb]. rewrite F2.
+    rewrite <- Hxl in Hnd, HS.
+    assert (Hrefs : forall r, In r (add_refs (drefs [] es) (en_e x)) -> In r (predefined ++ dnames es ++ lnames (en_labs x))).
+    { rewrite Hex. destruct pend as [e|].
+      - apply (expr_refs spell cfg lbs (fun r => In r (predefined ++ dnames es ++ lnames (en_labs x))) e); [exact Hkp|exact HS|].
+        intros r Hr. rewrite Hxl. apply Hrefs0. exact Hr.
+      - cbn [add_refs fold_left]. intros r Hr. rewrite Hxl. apply Hrefs0. exact Hr. }
+    destruct (parse_ldoc_end lead es x Hok Hends Hxok Hnd Hrefs) as [lines [Hparse Hess]].
+    rewrite Hparse.
+    apply (compile_program spell cfg org pend elabs ils es (Some x) lines _ nm au code start Hv Hrd Hsp0 (conj Hre Hbound) Horg Hess Hmean).
+  - (* without *)
+    destruct Htail as [-> ->]. cbn [map] in Hnd, Hrefs0. rewrite app_nil_r in Hnd, Hrefs0.
+    assert (Hplain : Forall plainword (ldoc_toks lead es)).
+    { unfold ldoc_toks. apply Forall_app. split; [apply repeat_nl_plain|]. apply Forall_app. split; [exact Hpl|].
+      constructor; [intros X; discriminate X|constructor]. }
+    destruct (front_plain cfg _ (ldoc_closed lead es Hok) Hplain) as [F1 F2].
+    rewrite F1. cbn [negb]. rewrite F2.
+    destruct (parse_ldoc lead es Hok Hends Hnd Hrefs0) as [lines [Hparse Hess]].
+    rewrite Hparse. rewrite <- (app_nil_r (elines 0 es)) in Hess.
+    apply (compile_program spell cfg org None [] ils es None lines _ nm au code start Hv Hrd Hsp0 (conj eq_refl eq_refl) Horg Hess Hmean).
 Qed.
 
 (* the same for a text given by its lexemes, with any white space between them *)
-Theorem labels_text es lead nm au code start its tail :
-  validate cfg = true -> renders_doc spell ils es -> shape_ok es -> ends_ok es ->
-  meaning cf (mkProg (map IInstr ils) None None nm au []) = MOk code start ->
+Theorem program_text org pend elabs ils es xo lead nm au code start its tail :
+  validate cfg = true ->
+  spell_ok spell (flat_map il_labels ils ++ elabs) ->
+  renders_doc spell org ils es -> shape_ok es -> line_ends_ok es xo -> renders_tail pend elabs (length ils) xo ->
+  match org with Some e => nok e | None => True end ->
+  meaning cf (mkProg (map IInstr ils) org pend nm au elabs) = MOk code start ->
   Forall (fun x => is_space_a x = true) tail -> tail <> [] -> items_ok its tail ->
-  flat_map item_toks its ++ newlines tail ++ [tEOF] = ldoc_toks lead es ->
+  flat_map item_toks its ++ newlines tail ++ [tEOF] = doc_tokens lead es xo ->
   compile_warrior cfg (flat_map item_text its ++ tail) = COk code start (dmeta (mkPM [] [] []) es).
 Proof.
-  intros Hv Hrd Hsh Hends Hmean Ht Hne Hits Htoks.
-  apply (labels_tokens es lead nm au code start _ Hv Hrd Hsh Hends Hmean).
+  intros Hv Hsp Hrd Hsh Hends Htail Horg Hmean Ht Hne Hits Htoks.
+  apply (program_tokens org pend elabs ils es xo lead nm au code start _ Hv Hsp Hrd Hsh Hends Htail Horg Hmean).
   rewrite (lex_items its tail Ht Hne Hits). rewrite Htoks. reflexivity.
 Qed.
-
 End End2End.
